@@ -531,7 +531,11 @@ func prepareCall(fr *frame, call *ssa.CallCommon) (fn value, args []value) {
 		// Interface method invocation.
 		recv := v.(iface)
 		if recv.t == nil {
-			panic("method invoked on nil interface")
+			panic(targetPanic{"runtime error: invalid memory address or nil pointer dereference (method " + call.Method.Name() + " invoked on nil interface)"})
+		}
+		if _, isNoop := recv.v.(noopObj); isNoop {
+			sig := call.Method.Type().(*types.Signature)
+			return &hostFunc{name: "noop." + call.Method.Name(), f: func(i *interpreter, args []value) value { return zeroResultsOf(sig) }}, nil
 		}
 		if f := lookupMethod(fr.i, recv.t, call.Method); f == nil {
 			// Unreachable in well-typed programs.
